@@ -54,6 +54,11 @@ type Contract struct {
 	Timeout  int      // per-obligation solver time limit override (seconds)
 	Locks    int      // >0: the function may block on locks of this level or higher
 	Invokes  string   // schema contract: calls this function-typed parameter exactly once and returns its result
+	Invariants []Clause // iterator invariant of a callback: required at entry, ensured at exit, and used by 'iterates' callers
+	Preserves []Clause // 'preserves E': E == old(E) after every call (reflexive and transitive, so also across an iteration)
+	ImplParams      int  // with 'implementations N': the number of parameters (receiver included) an implementing method must have
+	Allocates       bool // the function may allocate objects reachable from its results
+	Implementations bool // interface method contract that also stands for every implementing method without a contract of its own
 	Iterates string   // schema contract: calls this function-typed parameter any number of times (stops at its first error)
 	NonBlocking []string // lock classes (Struct.field) whose acquisition in this function is assumed not to block
 	GhostMaps []string // fresh uninterpreted Int->Int maps available in the ensures clauses (per call site)
@@ -336,6 +341,27 @@ func (cs *ContractSet) ParseContractText(file, pkgPath, pkgName, text string) {
 			if cur != nil {
 				cur.Iterates = strings.TrimSpace(rest)
 			}
+		case "preserves":
+			if cur == nil {
+				cs.errf(file, rl.line, "preserves outside func")
+				continue
+			}
+			if c, ok := mkClause("(" + rest + ") == old(" + rest + ")"); ok {
+				cur.Preserves = append(cur.Preserves, c)
+				cur.Ensures = append(cur.Ensures, c)
+			}
+		case "invariant":
+			// invariant E : an iterator invariant (both a precondition and a postcondition); a caller that
+			// hands this function to an 'iterates' callee establishes it before and may assume it after
+			if cur == nil {
+				cs.errf(file, rl.line, "invariant outside func")
+				continue
+			}
+			if c, ok := mkClause(rest); ok {
+				cur.Invariants = append(cur.Invariants, c)
+				cur.Requires = append(cur.Requires, c)
+				cur.Ensures = append(cur.Ensures, c)
+			}
 		case "invokes":
 			if cur != nil {
 				cur.Invokes = strings.TrimSpace(rest)
@@ -364,6 +390,16 @@ func (cs *ContractSet) ParseContractText(file, pkgPath, pkgName, text string) {
 			if cur != nil {
 				cur.Pure = true
 				cur.HasMod = true
+			}
+		case "allocates":
+			if cur != nil {
+				cur.Allocates = true
+			}
+		case "implementations":
+			if cur != nil {
+				cur.Implementations = true
+				cur.ImplParams, _ = strconv.Atoi(strings.TrimSpace(rest))
+				cs.Trust = append(cs.Trust, fmt.Sprintf("interface method contract assumed for every implementation that has no contract of its own: %s %s", pkgPath, cur.Key))
 			}
 		case "trusted":
 			if cur != nil {
